@@ -821,7 +821,7 @@ func (e *Exec) applyBlock(n *Node, rec *BlockRec, o applyOpts) (out applyOutcome
 		}
 		mid(i + 1)
 	}
-	if rec.Plan != nil {
+	if rec.Plan != nil && !rec.PlanViaGov {
 		plan := *rec.Plan
 		_, halt := n.guard("ScheduleUpgrade", func() {
 			if err := n.App.UpgradeKeeper.ScheduleUpgrade(n.DeliverCtx(), plan); err != nil {
@@ -1426,7 +1426,8 @@ func (e *Exec) upgradeChecks() {
 		}
 		e.Stats.Inc("probe.upgrade.executed")
 		for _, r := range e.R {
-			if r.Dead || !r.Up || (r.Boot && r.FirstHeight >= b.Plan.Height) {
+			if r.Dead || !r.Up || (r.Boot && (r.FirstHeight >= b.Plan.Height || b.PlanViaGov)) {
+				// a chain started from an export does not inherit a plan that governance had already put in place
 				continue // a chain bootstrapped from a later export does not carry the upgrade bookkeeping
 			}
 			ctx := r.App.NewContext(true, e.Env.Header(e.at(e.head()).B))
